@@ -21,10 +21,15 @@ type c11Params struct {
 	Maxpend int
 	Dotu    bool
 	P       int
+	NoConnOps bool // the implementation does not ask to be told about connections
 }
 
 func (p c11Params) name() string {
-	return fmt.Sprintf("disconnect prefix=%d parked=%v release=%v close=%s maxpend=%d dotu=%v", p.Prefix, p.Parked, p.Release, p.Close, p.Maxpend, p.Dotu)
+	n := fmt.Sprintf("disconnect prefix=%d parked=%v release=%v close=%s maxpend=%d dotu=%v", p.Prefix, p.Parked, p.Release, p.Close, p.Maxpend, p.Dotu)
+	if p.NoConnOps {
+		n += " implementation-without-ConnOps"
+	}
+	return n
 }
 
 // the history whose prefixes are cut: fids end up attached, walked, open, created, clunked
@@ -58,7 +63,7 @@ func c11Spec(p c11Params, mapMonitor bool) *VsSpec {
 		if mapMonitor {
 			vs.EnableHB()
 		}
-		s = newSess(SrvOpt{Msize: 256, Dotu: p.Dotu, Maxpend: p.Maxpend})
+		s = newSess(SrvOpt{Msize: 256, Dotu: p.Dotu, Maxpend: p.Maxpend, NoConnOps: p.NoConnOps})
 		by = s.h.Connect()
 		ver := "9P2000"
 		if p.Dotu {
@@ -183,7 +188,9 @@ func c11Spec(p c11Params, mapMonitor bool) *VsSpec {
 		}
 		// tokens handed out by Walk to a new fid appear in the log only on later use; collect them from the fid table of the script
 		if closed[0] != 1 {
-			return v(fmt.Sprintf("connclosed-count-%d", closed[0]), fmt.Sprintf("ConnClosed reported %d times for the disconnected connection", closed[0]))
+			if !(p.NoConnOps && closed[0] == 0) {
+				return v(fmt.Sprintf("connclosed-count-%d", closed[0]), fmt.Sprintf("ConnClosed reported %d times for the disconnected connection", closed[0]))
+			}
 		}
 		if closed[1] != 0 {
 			return v("bystander-closed", "ConnClosed reported for the bystander connection")
@@ -462,6 +469,10 @@ func c11Scenarios(tier string) []Scenario {
 			}
 			add(c11Params{Prefix: prefix, Parked: ps, Close: closes[i%6], Maxpend: []int{0, 2}[i%2], Dotu: i%4 < 2, P: pp})
 		}
+	}
+	// an implementation with FidDestroy but without ConnOpened / ConnClosed (the library's Fsrv is one)
+	for i, ps := range [][]string{{}, {"read"}, {"clunk"}} {
+		add(c11Params{Prefix: 5 + i, Parked: ps, Close: closes[i%3], Maxpend: i % 3, Dotu: i%2 == 0, P: 1, NoConnOps: true})
 	}
 	// every way of going away while the writer is blocked, with the unbuffered reply queue too
 	for i, cl := range []string{"slowconnclosed", "slowfiddestroy"} {
